@@ -386,4 +386,17 @@ EXPLANATION = EXPLANATION + (" (R7) the header parse admits only well-formed dat
                              "(shared C01.R2): the server's own datagrams reflected at it from a client's address decrypt under the session key, and only the "
                              "direction test keeps them from filling that client's receive window and so disturbing an established client.")
 
-RULES = [("C11.R1", r1), ("C11.R2", r2), ("C11.R3", r3), ("C11.R4", r4), ("C11.R5", r_enum), ("C11.R6", r6), ("C11.R7", r_shared_r7)]
+def r_shared_r8(ctx):
+    """an established client is disturbed by nothing that is not sealed under its session key: once a connection has a key, every
+    path of Packet.from_bytes that takes message bytes goes through AES-GCM (shared C01.R1) - a CRC-only hello admitted on a keyed
+    connection re-runs the handshake handlers on the live session (new key, new token, status back to CONNECTING) for anybody who
+    can spoof the client's address"""
+    from . import c01 as _m
+    from .c02 import _Sub
+    _m.r1(_Sub(ctx, "C11.R8"))
+
+
+EXPLANATION = EXPLANATION + (" (R8) on a keyed connection every path of Packet.from_bytes that yields message bytes passes AES-GCM decryption (shared C01.R1): "
+                             "a CRC-only datagram admitted for an established address would let a stranger re-run the handshake handlers on the live session.")
+
+RULES = [("C11.R1", r1), ("C11.R2", r2), ("C11.R3", r3), ("C11.R4", r4), ("C11.R5", r_enum), ("C11.R6", r6), ("C11.R7", r_shared_r7), ("C11.R8", r_shared_r8)]
